@@ -23,7 +23,6 @@ namespace Handshake
 open FrameSpec (Bytes Val NVal QParams Req Decoded decodeReq)
 open FrameWrite (GReq GParams GVal encodeReq)
 
-def str (s : String) : Bytes := s.toUTF8.toList
 
 /-- one response of the peer -/
 inductive PeerAnswer
@@ -71,12 +70,24 @@ structure Config where
   /-- iteration order of the STARTUP options map (a Go map): an environment parameter, like `now` -/
   mapOrder : List (Bytes × Bytes) → List (Bytes × Bytes)
 
-def kCql : Bytes := str "CQL_VERSION"
-def kName : Bytes := str "DRIVER_NAME"
-def kVersion : Bytes := str "DRIVER_VERSION"
-def kCompression : Bytes := str "COMPRESSION"
+/-- "CQL_VERSION" -/
+def kCql : Bytes := [67, 81, 76, 95, 86, 69, 82, 83, 73, 79, 78]
+/-- "DRIVER_NAME" -/
+def kName : Bytes := [68, 82, 73, 86, 69, 82, 95, 78, 65, 77, 69]
+/-- "DRIVER_VERSION" -/
+def kVersion : Bytes := [68, 82, 73, 86, 69, 82, 95, 86, 69, 82, 83, 73, 79, 78]
+/-- "COMPRESSION" -/
+def kCompression : Bytes := [67, 79, 77, 80, 82, 69, 83, 83, 73, 79, 78]
 
-def useStmt (ks : Bytes) : Bytes := str "USE \"" ++ ks ++ str "\""
+/-- `USE "<ks>"` -/
+def useStmt (ks : Bytes) : Bytes := [85, 83, 69, 32, 34] ++ ks ++ [34]
+
+/-- "TOPOLOGY_CHANGE" -/
+def evTopology : Bytes := [84, 79, 80, 79, 76, 79, 71, 89, 95, 67, 72, 65, 78, 71, 69]
+/-- "STATUS_CHANGE" -/
+def evStatus : Bytes := [83, 84, 65, 84, 85, 83, 95, 67, 72, 65, 78, 71, 69]
+/-- "SCHEMA_CHANGE" -/
+def evSchema : Bytes := [83, 67, 72, 69, 77, 65, 95, 67, 72, 65, 78, 71, 69]
 
 /-! ## specification -/
 
@@ -99,8 +110,8 @@ def specStartup (cfg : Config) (m : List (Bytes × List Bytes)) : Req :=
 def specUse (cons : Nat) (ks : Bytes) : Req := Req.query (useStmt ks) (FrameSpec.noParams cons []) []
 
 def specEvents (t s c : Bool) : List Bytes :=
-  (if t then [str "TOPOLOGY_CHANGE"] else []) ++ (if s then [str "STATUS_CHANGE"] else []) ++
-  (if c then [str "SCHEMA_CHANGE"] else [])
+  (if t then [evTopology] else []) ++ (if s then [evStatus] else []) ++
+  (if c then [evSchema] else [])
 
 /-- the per-request keyspace exists from v5 and is the keyspace of the last answered USE -/
 def specKs (v : Nat) (curKs : Bytes) : Option Bytes := if v ≥ 5 ∧ curKs ≠ [] then some curKs else none
@@ -254,9 +265,9 @@ def execParams (cfg : Config) (curKs : Bytes) (cons : Nat) (vals : List (Option 
 /-- controlConn.registerEvents' list -/
 def regEvents (t s c : Bool) : List Bytes :=
   let e0 : List Bytes := []
-  let e1 := if t then e0 ++ [str "TOPOLOGY_CHANGE"] else e0
-  let e2 := if s then e1 ++ [str "STATUS_CHANGE"] else e1
-  if c then e2 ++ [str "SCHEMA_CHANGE"] else e2
+  let e1 := if t then e0 ++ [evTopology] else e0
+  let e2 := if s then e1 ++ [evStatus] else e1
+  if c then e2 ++ [evSchema] else e2
 
 /-- the owner of the connection starts its next action -/
 def advance (cfg : Config) (curKs : Bytes) : List Action → Phase × Option GReq
@@ -323,14 +334,20 @@ def step (cfg : Config) (au : Authn) (s : State) (a : PeerAnswer) : State × Opt
     | _, _ => failAct s
   | .stopped _ => (s, none)
 
-/-- the requests written after each answer, each with conn.compressor != nil at that moment
-    (STARTUP is never compressed) -/
+/-- is the request written after an answer compressed: conn.compressor != nil at that moment,
+    except for STARTUP, which never is -/
+def flagOf (s s' : State) : Bool :=
+  match s.phase with
+  | .awaitSupported => false
+  | _ => s'.compress
+
+/-- the requests written after each answer, each with its `flagOf` -/
 def run (cfg : Config) (au : Authn) : State → List PeerAnswer → List (GReq × Bool)
   | _, [] => []
   | s, a :: as =>
     let r := step cfg au s a
     (match r.2 with
-     | some g => [(g, match s.phase with | .awaitSupported => false | _ => r.1.compress)]
+     | some g => [(g, flagOf s r.1)]
      | none => []) ++ run cfg au r.1 as
 
 def final (cfg : Config) (au : Authn) : State → List PeerAnswer → State
